@@ -6,3 +6,4 @@ pub mod driver;
 pub mod compare;
 pub mod inputs;
 pub mod pools;
+pub mod history;
